@@ -124,8 +124,46 @@ func (x mappedAs) AddTo(m *stun.Message) error {
 	return x.a.AddToAs(m, x.t)
 }
 
-func mappedGet(m *stun.Message, t stun.AttrType) (*stun.MappedAddress, error) {
-	a := new(stun.MappedAddress)
+// destinations of the typed getters live across calls (and cases): a getter's result must not depend on what its
+// destination held before (a longer IP, a longer text, more unknown-attribute entries); every 7th call starts fresh
+type getterDst struct {
+	n     int
+	mapped *stun.MappedAddress
+	xor   *stun.XORMappedAddress
+	user  stun.Username
+	realm stun.Realm
+	nonce stun.Nonce
+	soft  stun.Software
+	ec    stun.ErrorCodeAttribute
+	ua    stun.UnknownAttributes
+}
+
+func (d *getterDst) tick() {
+	if d.mapped == nil {
+		*d = getterDst{mapped: new(stun.MappedAddress), xor: new(stun.XORMappedAddress)}
+	}
+}
+
+// PRIME: the destinations hold large values of an earlier use (16-byte IPs, long texts, 70 unknown-attribute entries)
+func (d *getterDst) prime(fill byte) {
+	long := func(n int) []byte {
+		b := make([]byte, n)
+		for i := range b {
+			b[i] = fill + byte(i)
+		}
+		return b
+	}
+	d.mapped = &stun.MappedAddress{IP: long(16), Port: 9999}
+	d.xor = &stun.XORMappedAddress{IP: long(16), Port: 9999}
+	d.user, d.realm, d.nonce, d.soft = long(600), long(800), long(800), long(800)
+	d.ec = stun.ErrorCodeAttribute{Code: 699, Reason: long(800)}
+	d.ua = make(stun.UnknownAttributes, 70)
+	for i := range d.ua {
+		d.ua[i] = stun.AttrType(0xAA00 + i)
+	}
+}
+
+func mappedGet(a *stun.MappedAddress, m *stun.Message, t stun.AttrType) (*stun.MappedAddress, error) {
 	var err error
 	switch t {
 	case stun.AttrMappedAddress:
@@ -147,6 +185,9 @@ func (e *executor) attrs(t []string) (string, bool) {
 		return "stale", true
 	}
 	switch {
+	case t[0] == "PRIME" && len(t) == 2:
+		e.dst.prime(byte(atoi(t[1])))
+		return "ok", true
 	case t[0] == "SET" && len(t) == 3:
 		m := e.msgs[atoi(t[1])]
 		err := parseSetter(t[2]).AddTo(m)
@@ -166,7 +207,8 @@ func (e *executor) attrs(t []string) (string, bool) {
 		return e.dumpS(atoi(t[1])), true
 	case t[0] == "GETX" && len(t) == 4 && t[2] == "xor":
 		m := e.msgs[atoi(t[1])]
-		a := new(stun.XORMappedAddress)
+		e.dst.tick()
+		a := e.dst.xor
 		var err error
 		if at := stun.AttrType(atoi(t[3])); at == stun.AttrXORMappedAddress {
 			err = a.GetFrom(m)
@@ -179,7 +221,8 @@ func (e *executor) attrs(t []string) (string, bool) {
 		return fmt.Sprintf("ok %s:%d", showHex(a.IP), a.Port), true
 	case t[0] == "GETX" && len(t) == 4 && t[2] == "map":
 		m := e.msgs[atoi(t[1])]
-		a, err := mappedGet(m, stun.AttrType(atoi(t[3])))
+		e.dst.tick()
+		a, err := mappedGet(e.dst.mapped, m, stun.AttrType(atoi(t[3])))
 		if err != nil {
 			return getErrKind(err), true
 		}
@@ -188,30 +231,32 @@ func (e *executor) attrs(t []string) (string, bool) {
 		m := e.msgs[atoi(t[1])]
 		var err error
 		var out string
+		e.dst.tick()
 		switch t[2] {
 		case "user":
-			var v stun.Username
+			v := &e.dst.user
 			err = v.GetFrom(m)
-			out = showHex(v)
+			out = showHex(*v)
 		case "realm":
-			var v stun.Realm
+			v := &e.dst.realm
 			err = v.GetFrom(m)
-			out = showHex(v)
+			out = showHex(*v)
 		case "nonce":
-			var v stun.Nonce
+			v := &e.dst.nonce
 			err = v.GetFrom(m)
-			out = showHex(v)
+			out = showHex(*v)
 		case "soft":
-			var v stun.Software
+			v := &e.dst.soft
 			err = v.GetFrom(m)
-			out = showHex(v)
+			out = showHex(*v)
 		case "ec":
-			var v stun.ErrorCodeAttribute
+			v := &e.dst.ec
 			err = v.GetFrom(m)
 			out = fmt.Sprintf("%d:%s", int(v.Code), showHex(v.Reason))
 		case "ua":
-			var v stun.UnknownAttributes
-			err = v.GetFrom(m)
+			vp := &e.dst.ua
+			err = vp.GetFrom(m)
+			v := *vp
 			parts := make([]string, len(v))
 			for i, x := range v {
 				parts[i] = strconv.Itoa(int(x))
